@@ -20,6 +20,18 @@ def main():
     if p.returncode != 0:
         return 1
     os.makedirs(os.path.join(VERIF, 'build'), exist_ok=True)
+    # the arithmetic axioms as Lean theorems (cold start ~3 min because Mathlib's .olean files come off disk)
+    import hashlib
+    lf = os.path.join(VERIF, 'lean', 'PyVC.lean')
+    stamp = os.path.join(VERIF, 'build', 'lean.stamp')
+    digest = hashlib.sha256(open(lf, 'rb').read()).hexdigest()
+    if not (os.path.exists(stamp) and open(stamp).read().strip() == digest):
+        r = subprocess.run(['lean', lf], cwd=VERIF, capture_output=True, text=True)
+        print("lean lean/PyVC.lean ->", r.returncode, (r.stdout + r.stderr)[-500:])
+        if r.returncode != 0:
+            return 1
+        with open(stamp, 'w') as fh:
+            fh.write(digest)
     # theory conformance (axioms and builtin models against CPython)
     conf = os.path.join(VERIF, 'pyvc', 'conformance.py')
     if os.path.exists(conf):
